@@ -1,8 +1,7 @@
 (* ZoneFile/ZfInstance.v -- the zone-file model instantiated with the address codec of
    Ip/IpModel.v (std's Ipv4Addr / Ipv6Addr FromStr and Display), for extraction (the model
    driver) only.  No theorem depends on this file: the zone-file theorems hold for every
-   codec.  (ZoneFile/ZfIpStub.v is an independent stand-in transcription that was used before
-   Ip/IpModel.v existed; it is kept as a cross-check instance, see [zf_codec_stub].) *)
+   codec. *)
 From RV Require Import Base.Prelude Name.NameModel Wire.WireTypes Zone.ZoneModel Ip.IpModel
      ZoneFile.ZoneFileModel ZoneFile.ZoneSerialiseModel.
 
